@@ -13,6 +13,7 @@ import (
 	"honnef.co/go/tools/analysis/code"
 	"honnef.co/go/tools/analysis/lint"
 	"honnef.co/go/tools/analysis/report"
+	"honnef.co/go/tools/knowledge"
 	"honnef.co/go/tools/lintcmd"
 )
 
@@ -82,6 +83,18 @@ func main() {
 				return s
 			}
 			fmt.Printf("%s %s %s %s %s\n", k.name, d(o.MinimumLanguageVersion), d(o.MaximumLanguageVersion), d(o.MinimumStdlibVersion), d(o.MaximumStdlibVersion))
+		}
+		return
+	}
+	if len(os.Args) > 1 && os.Args[1] == "-deprecations" {
+		// the thresholds SA1019 uses, from the real knowledge table
+		for _, n := range os.Args[2:] {
+			d, ok := knowledge.StdlibDeprecations[n]
+			if !ok {
+				fmt.Printf("%s -\n", n)
+				continue
+			}
+			fmt.Printf("%s %s\n", n, d.DeprecatedSince)
 		}
 		return
 	}
